@@ -380,7 +380,7 @@ def est_add_case(nmov, nlp, kin=True):
         claims.insert(5, Claim("event time and speed lie on the step's constant-acceleration trajectory", kinematics, role="event_kinematics"))
     c = Case(f"est_times_add_m{nmov}_lp{nlp}", "C15", "Vec<EstTime>", [], [Call("update_est_times_add", [("&Vec<SimpleState>", mov), ("&Vec<LinkPoint>", lps), ("Quantity", Sym("len"))])],
              assume, claims, bounds={"movement states": nmov, "link points": nlp, "train length": "symbolic > 0", "movement": "symbolic, constant acceleration within a step", "step size": "1 s (concrete)"},
-             max_paths=20000, loop_bound=60, timeout_ms=60000, check_side=False)
+             max_paths=20000, loop_bound=60, timeout_ms=300000, check_side=False)  # usually 4 s in total; one run in twenty spent 90 s (z3 variance on the sqrt terms)
     return c
 
 
